@@ -9,6 +9,7 @@ import os, hashlib, glob, json
 
 GROUPS = {1: ['uset', 'uset_o', 'umap', 'umap_o'], 2: ['ummap', 'ummap_o', 'vec'], 3: ['set', 'mset'], 4: ['map', 'mmap']}
 GROUP_OF = {k: g for g, ks in GROUPS.items() for k in ks}
+GROUP_OF['mmk'] = 2; GROUP_OF['mmko'] = 2
 ALLOC_KINDS = {'uset': True, 'ummap': True, 'mset': True, 'map': True, 'vec': True}   # kinds instantiated with the stateful allocators
 ORDERED = {'set', 'mset', 'map', 'mmap'}
 MULTI = {'ummap', 'ummap_o', 'mset', 'mmap'}
@@ -278,12 +279,15 @@ def three_way(ctx, exes, cases, have_model, label):
             a = momo[i] if i < len(momo) else '<missing>'; b = std[i] if i < len(std) else '<missing>'
             m = (model[i] if i < len(model) else '<missing>') if model is not None else None
             toks = set(s.strip().split(' ')[0] for s in cse.split(';')[1:])
+            if cse.startswith('mmk') and ' /  ' not in cse and not cse.split(' / ')[0].endswith(cse.split(' ')[1]):
+                ctx.nontrivial.add(cse)
             if toks & INTERESTING and any(t not in ('skip', 'none', '-') for t in a.split(' | ')[0].split(' ')):
                 ctx.nontrivial.add(cse)
             if a != b:
                 ok_mstd = False; bad.append((cse, a, b, m, 'momo and libstdc++ disagree'))
-            elif m is not None and a != m:
-                ok_ms = False; bad.append((cse, a, b, m, 'momo and the extracted spec disagree'))
+            if m is not None and a != m:
+                ok_ms = False
+                if a == b: bad.append((cse, a, b, m, 'momo and the extracted spec disagree'))
             if m is not None and b != m:
                 ok_ss = False; bad.append((cse, a, b, m, 'libstdc++ and the extracted spec disagree (oracle validation)'))
             if m is not None and a == m: ctx.traces_validated += 1
@@ -368,6 +372,21 @@ def all_cases(ctx, scale):
                 for k in range(n):
                     pre = ' ; '.join('ins 0 %d %d' % (j, j + 1) for j in range(n)) + (' ; ins 0 %d 77' % k if kind.startswith('ummap') else '')
                     cases.append('%s 0 1 1 %d ; %s ; erre 0 %d ; sz 0 ; dump 0' % (kind, hm, pre, k))
+    # aimed: unordered_multimap whose key_eq is coarser than operator== of the key (identity-tagged keys): == must use operator==
+    for i in range(150 * scale):
+        n = r.below(5)
+        a = [(r.below(3), r.below(2), r.below(2)) for _ in range(n)]
+        b = list(a); r.shuffle(b)
+        t = r.below(6)
+        if b and t == 0: j = r.below(len(b)); b[j] = (b[j][0], 1 - b[j][1], b[j][2])          # same key class, other identity
+        elif b and t == 1: j = r.below(len(b)); b[j] = (b[j][0], b[j][1], 1 - b[j][2])        # other value
+        elif b and t == 2: b.pop(r.below(len(b)))
+        elif t == 3: b.append((r.below(3), r.below(2), r.below(2)))
+        # all values of one key class must carry the same key object in a multimap (the key is stored once): normalise ids per class
+        ida = {}; a = [(k, ida.setdefault(k, i_), v) for (k, i_, v) in a]
+        idb = {}; b = [(k, idb.setdefault(k, i_), v) for (k, i_, v) in b]
+        tail = (' / %d %d' % (2, r.below(2))) if r.chance(1, 3) else ''
+        cases.append('%s %d %s / %s%s' % (r.choice(['mmk', 'mmko']), r.below(2), ' '.join('%d.%d.%d' % e for e in a), ' '.join('%d.%d.%d' % e for e in b), tail))
     seen = set(); out = []
     for cse in cases:
         if cse not in seen: seen.add(cse); out.append(cse)
